@@ -21,13 +21,17 @@ Record case := {
 
 Definition pair_eqb (a : Z * Z) (x y : Z) : bool := (fst a =? x) && (snd a =? y).
 
+(** the harness builds ts = (true interval start) + offset; the encoder sees ts - IndexToTimeDepr *)
+Definition eff_off (k : case) (o : Z) : Z :=
+  o + ((k_index k - 1) * (86400 / k_ipd k) - index_to_second_of_year (k_index k) (k_ipd k)) * 1000000000.
+
 Definition agrees (k : case) : bool :=
   (index_to_second_of_year (k_index k) (k_ipd k) =? k_base k)
-  && (enc (k_ipd k) (k_off k) =? k_ticks k) && (enc (k_ipd k) (k_off2 k) =? k_ticks2 k)
+  && (enc (k_ipd k) (eff_off k (k_off k)) =? k_ticks k) && (enc (k_ipd k) (eff_off k (k_off2 k)) =? k_ticks2 k)
   && pair_eqb (dec (k_start k) (k_ipd k) (k_ticks k)) (k_sec k) (k_ns k)
   && pair_eqb (dec (k_start k) (k_ipd k) (k_raw k)) (k_rsec k) (k_rns k)
   (* the primitive-float mirror used by the exhaustive 1Sec sweep computes the same *)
-  && (enc_pf (k_ipd k) (k_off k) =? k_ticks k) && (enc_pf (k_ipd k) (k_off2 k) =? k_ticks2 k)
+  && (enc_pf (k_ipd k) (eff_off k (k_off k)) =? k_ticks k) && (enc_pf (k_ipd k) (eff_off k (k_off2 k)) =? k_ticks2 k)
   && pair_eqb (dec_pf (k_start k) (k_ipd k) (k_ticks k)) (k_sec k) (k_ns k)
   && pair_eqb (dec_pf (k_start k) (k_ipd k) (k_raw k)) (k_rsec k) (k_rns k).
 
